@@ -91,6 +91,10 @@ class C12(Check):
                 script.append(list(rng.choice(script)))          # repeat within batch / of an earlier redraw
             else:
                 script.append(pt())
+        if off == 0.0 and rng.random() < 0.3:
+            # signed zeros: -0.0 and 0.0 are the same point of the space (np.unique and == agree), so a repeat that differs only in the sign
+            # of a zero coordinate is still a repeat
+            script = [[-0.0 if (x == 0.0 and rng.random() < 0.5) else x for x in row] for row in script]
         case = {"d": d, "B": B, "budget": budget, "hist": hist, "script": script, "lattice": [off, step, side]}
         u = rng.random()
         if u < 0.25:
